@@ -16,7 +16,7 @@
    theorems below say what follows for the caller from the behaviour of the glue, the runtime is
    exercised by the correspondence check only. *)
 From Coq Require Import List NArith Bool.
-From Storage Require Import Base.Bytes Lang.Tokens Lang.Lexer Lang.Regex Lang.LexerFull Lang.LexerProofs Lang.Glue Lang.C10Proofs.
+From Storage Require Import Base.Bytes Lang.Tokens Lang.Lexer Lang.Regex Lang.LexerFull Lang.LexerProofs Lang.Glue Lang.C10Proofs Lang.GlueEntry Lang.GlueEntryProofs.
 Import ListNotations.
 
 (* the lexer loses or invents nothing silently: tokens and dropped regions, concatenated in order,
@@ -53,3 +53,26 @@ Theorem glue_never_panics_partial : forall (Q : Type) (parser : list (nat * str)
   parse_glue Q parser fixed_glue s <> Panicked.
 Proof. exact glue_no_panic_lemma. Qed.
 Print Assumptions glue_never_panics_partial.
+
+(* ENTRY POINTS (Lang/GlueEntry.v: zitiql.parse with its debug flag on pooled lexer / parser instances that
+   carry the listeners earlier callers left on them).  Whether a text is refused is a function of the text:
+   every public entry point (zitiql.Parse, ParseWithDebug false / true, ast.Parse, the string variants of
+   the store query APIs), after any history of earlier calls through any entry points, gives the caller
+   the verdict of the glue of Lang/Glue.v *)
+Theorem entry_points_agree : forall (Q : Type) (parser : list (nat * str) -> nat * option Q)
+    (e1 e2 : entry) (h1 h2 : list (entry * str)) s,
+  run_entry Q parser LexerAlways e1 (length h1) (pool_after Q parser LexerAlways 0 fresh_instances h1) s =
+  run_entry Q parser LexerAlways e2 (length h2) (pool_after Q parser LexerAlways 0 fresh_instances h2) s.
+Proof. exact entry_history_irrelevant_lemma. Qed.
+Print Assumptions entry_points_agree.
+
+Theorem entry_point_is_glue : forall (Q : Type) (parser : list (nat * str) -> nat * option Q) e me inst s,
+  run_entry Q parser LexerAlways e me inst s = parse_glue Q parser fixed_glue s.
+Proof. exact run_entry_is_glue. Qed.
+Print Assumptions entry_point_is_glue.
+
+(* text with characters no token rule accepts is refused through every entry point, on any instances *)
+Theorem every_entry_rejects_lexer_errors : forall (Q : Type) (parser : list (nat * str) -> nat * option Q) e me inst s,
+  drops_of (lex_full s) <> [] -> run_entry Q parser LexerAlways e me inst s = Rejected.
+Proof. exact every_entry_rejects_lexer_errors_lemma. Qed.
+Print Assumptions every_entry_rejects_lexer_errors.
